@@ -1,5 +1,14 @@
 (* C11 — Modification dates are stamped on exactly the notes that were edited. *)
-From Zorg Require Import Base.PyStr Base.Res Base.Dates Model.Zid Model.QueryListener Model.WriteBack Proofs.WriteBackFacts.
+From Zorg Require Import Base.PyStr Base.Res Base.Dates Model.Zid Model.FileListener Model.QueryListener Model.WriteBack
+  Proofs.WriteBackFacts Model.PageSyntax Model.PageText Proofs.PageFacts Proofs.ItemWriteBack.
+
+(* On abstract items: stamping writes the date in front of the ZID - inserted when the item has none, replacing the
+   old one otherwise - and nothing else of the line changes: the result is the canonical text of the same item
+   with identity "modify date + ZID". *)
+Theorem C11_date_written_into_item : forall d it,
+  stampable it -> prio_ok it -> forallb no_space (d :: line_words it) = true ->
+  add_or_update_modify_date d (render_item it) = Ok (render_item (with_mdate d it)).
+Proof. exact add_mdate_item. Qed.
 
 Theorem C11_iff : forall today old n,
   (exists b, stamp today old n = Some b) <->
@@ -40,6 +49,7 @@ Theorem C11_heuristic_refuted :
   = Some (S "240602 second").
 Proof. exact stamp_heuristic_refuted. Qed.
 
+Print Assumptions C11_date_written_into_item.
 Print Assumptions C11_iff.
 Print Assumptions C11_idempotent.
 Print Assumptions C11_date_inserted.
